@@ -1,10 +1,15 @@
 import CalVerif.Prim.Wire
 import CalVerif.Model.Range
+import CalVerif.Model.RangeIter
 /-! Driver for C05: runs an operation history through the `Range` model (values = `usize`)
     and prints the canonical dump after every operation.
 
     request : `hist <op>;<op>;…`   op = `N,sr,sc,er,ec` | `E` | `F,r,c,v,r,c,v,…` | `S,row,col,v` | `R,sr,sc,er,ec`
-    reply   : `<dump>;<dump>;…`    dump = `panic` (state unchanged) or the observable state -/
+    reply   : `<dump>;<dump>;…`    dump = `panic` (state unchanged) or the observable state
+
+    request : `iter <pat> <op>;<op>;…`   pat = string of `f` (`next`) / `b` (`next_back`)
+    reply   : `C=<trace> L=<len> U=<trace> R=<trace>` — the three iterators of the FINAL state of the history
+              consumed by that pattern; trace item = `f<r>:<c>:<v>` / `b…` / `f-` (None); rows as `f[v.v.v]` -/
 
 open Range
 
@@ -65,9 +70,41 @@ def runHist (ops : List String) : String :=
       | some _ => go r rest ("panic" :: acc)
   ";".intercalate (go empty ops [])
 
+def finalState (ops : List String) : Option (Rng Nat) :=
+  let rec go (r : Rng Nat) : List String → Option (Rng Nat)
+    | [] => some r
+    | op :: rest =>
+      match applyOp r op with
+      | none => none
+      | some (.ok r') => go r' rest
+      | some _ => go r rest
+  go empty ops
+
+def showItem (d : Bool) (o : Option (Nat × Nat × Nat)) : String :=
+  (if d then "f" else "b") ++ match o with
+    | some c => s!"{c.1}:{c.2.1}:{c.2.2}"
+    | none => "-"
+
+def showRow (d : Bool) (o : Option (List Nat)) : String :=
+  (if d then "f" else "b") ++ match o with
+    | some row => "[" ++ ".".intercalate (row.map toString) ++ "]"
+    | none => "-"
+
+def runIter (pat : String) (ops : List String) : String :=
+  match finalState ops with
+  | none => "bad-op"
+  | some r =>
+    let p := pat.toList.map (· == 'f')
+    let c := CellIt.consume CellIt.next CellIt.nextBack p (cellsIter r)
+    let u := CellIt.consume CellIt.nextUsed CellIt.nextBackUsed p (cellsIter r)
+    let w := rowsConsume p (rows r)
+    let tr (t : List (Bool × Option (Nat × Nat × Nat))) := ",".intercalate (t.map fun x => showItem x.1 x.2)
+    s!"C={tr c.1} L={c.2.len} U={tr u.1} R={",".intercalate (w.1.map fun x => showRow x.1 x.2)}"
+
 def handle (line : String) : String :=
   match Wire.words line with
   | ["hist", ops] => runHist (ops.splitOn ";")
+  | ["iter", pat, ops] => runIter pat (ops.splitOn ";")
   | _ => "bad-op"
 
 def main : IO Unit := Wire.run handle
